@@ -7,6 +7,11 @@ ENGINES = [
 NOT_APPLICABLE = {}
 _NOTE = 'Trusted base: compiler + sanitizer runtimes, the engine in harness/engine.h, and the independent reference oracle named in the technique (self-tested at every start). Verdict is "held on everything explored", not absence.'
 TEXT = {
+ 'C12': dict(engine='sweep+pbt', design_ref='DESIGN.md 5/C12',
+   technique='exhaustive sweep + property-based testing with a segmentation-agnostic tiling oracle over an independent UTF reference',
+   level_text='Exhaustive over all 16.8 M UTF-8 strings of length <= 3, 810 k 4-byte strings by byte class, every UTF-16 unit and every surrogate pair, every UTF-32 unit up to 0x11FFFF, through every decoder/encoder/Transcode entry point and both policies; plus ~10^5 generated texts with embedded ill-formed chunks under ASan/UBSan with three mark variants. Exploration: small strings are closed completely, long ones sampled.',
+   level_note=_NOTE),
+
  'C11': dict(engine='sweep+pbt', design_ref='DESIGN.md 5/C11',
    technique='exhaustive sweep + property-based testing vs independent UTF reference (ref_utf)',
    level_text='Exhaustive over the finite domain the quantifier names (every Unicode scalar value through every direct encoder operation, both policies, empty and non-empty outputs) plus ~10^5 generated mixed-plane sequences up to 4096 code points per run, all compared with an independent encoder/decoder. Exploration is the right level: the per-scalar domain is closed completely, sequences are sampled.',
